@@ -120,6 +120,12 @@ class Case:
         elif k == "close":
             self.model(o["m"]).close()
             self.closed.add(o["m"])
+        elif k == "setsheet":
+            self.model(o["m"]).get_spec(self.value(o["v"])).sheet = None if o["sh"] is None else SHEETS[o["sh"]]
+        elif k == "setpath":
+            self.model(o["m"]).get_spec(self.value(o["v"])).path = PATHS[o["p"]]
+        elif k == "delspec":
+            self.model(o["m"]).del_spec(self.value(o["v"]))
         elif k == "delspace":            # only in witnesses of recorded defects
             delattr(self.model(o["m"]), NAMES[o["s"]])
         elif k == "newscalarcells":      # only in witnesses
@@ -289,25 +295,34 @@ class Case:
 
 
 def reset():
+    """close every model (an operation of the property's vocabulary: it must not raise) and drop leaked specs"""
+    exc = None
+    sysm = mx.core.mxsys
     for mod in list(mx.get_models().values()):
-        mod.close()
-    iom = mx.core.mxsys.iomanager
+        try:
+            mod.close()
+        except Exception as e:
+            exc = "%s: %s" % (type(e).__name__, str(e)[:100])
+            sysm.models.pop(mod.name, None)
+            sysm.currentmodel = None
+    iom = sysm.iomanager
     for key in list(iom.ios):       # leaks of recorded defects must not reach the next case
         del iom.ios[key]
+    return exc
 
 
 def main():
     cases = json.load(sys.stdin)
     os.makedirs(TMP, exist_ok=True)
     out = []
+    reset()
     for n, case in enumerate(cases):
-        reset()
         try:
             out.append(Case(case).run(str(n)))
         except Exception as e:
             import traceback
             out.append({"crash": traceback.format_exc()[-1500:]})
-    reset()
+        out[-1]["close_exc"] = reset()
     print("@@RESULT " + json.dumps(out))
 
 
